@@ -1,9 +1,12 @@
 import QcelVerif.Model.NucleusShipped
+import QcelVerif.Model.NucleusRe
 import QcelVerif.Lib.Proto
 /-!
 Line-protocol driver for the C06 model (stateful: the `H`/`C` ops go through the LRU memo model).
 
-  P <hex label>                      parse_nucleus_label
+  P <hex label>                      parse_nucleus_label, twice: `<hand recogniser> # <regex engine on the generated AST>`
+  X <name> <m|f|s> <hex text>        generated pattern <name> (nucleus | number | chgmult) through the generic engine:
+                                     re.match / re.fullmatch / re.search -> `none` | `ok <start> <end> <g1>,<g2>,…`
   D <hex decimal text>               float(text) through rd64
   G <hex symbol>                     _el2a2mass[symbol] min/max keys and values
   R A|Z|E|mass|real|label|spec|nonphys|mtol     reconcile_nucleus (stateless)
@@ -80,13 +83,37 @@ def showLabel : Option Label → String
   | none => "err Validation:unparseable"
   | some l => s!"ok {showOptNat l.A} {showOptNat l.Z} {showOptBytes l.E} {showOptBytes l.mass} {if l.real then 1 else 0} {showOptBytes l.user}"
 
+/-- the generated patterns by name: (AST, number of groups) -/
+def genPattern? (name : String) : Option (Regex.Re × Nat) :=
+  if name == "nucleus" then some (Gen.NucleusRegex.nucleus, Gen.NucleusRegex.nucleusGroups)
+  else if name == "number" then some (Gen.NucleusRegex.number, Gen.NucleusRegex.numberGroups)
+  else if name == "chgmult" then some (Gen.NucleusRegex.chgmult, Gen.NucleusRegex.chgmultGroups)
+  else none
+
+def showMatch (n : Nat) (len : Nat) (start : Nat) (st : Regex.St) : String :=
+  let gs := (List.range n).map fun i => match st.group (i + 1) with | some b => "s" ++ hex6 b | none => "N"
+  s!"ok {start} {len - st.rest.length} {",".intercalate gs}"
+
+def evalPattern (name mode hex : String) : String :=
+  match genPattern? name, unhex6 hex.toList with
+  | some (r, n), some b =>
+    if mode == "m" then (match r.matchPrefix b with | some st => showMatch n b.length 0 st | none => "none")
+    else if mode == "f" then (match r.fullMatch b with | some st => showMatch n b.length 0 st | none => "none")
+    else if mode == "s" then (match r.search b with | some (p, st) => showMatch n b.length p st | none => "none")
+    else "bad-op"
+  | _, _ => "bad-op"
+
 abbrev Cache := Lru Input Output
 
 def stepC06 (rng : Nat → Option Range) (c : Cache) (line : String) : Cache × String :=
   let f : Input → Except Err Output := reconcileWith shippedN rd64 rng
   match line.toList with
   | ['C'] => ({ c with entries := [] }, "cleared")
-  | 'P' :: ' ' :: t => (c, match unhex6 t with | some b => showLabel (parseLabel b) | none => "bad-op")
+  | 'P' :: ' ' :: t => (c, match unhex6 t with | some b => showLabel (parseLabel b) ++ " # " ++ showLabel (parseLabelRe b) | none => "bad-op")
+  | 'X' :: ' ' :: t =>
+      (c, match splitOnChar (String.ofList t) ' ' with
+        | [name, mode, hex] => evalPattern name mode hex
+        | _ => "bad-op")
   | 'D' :: ' ' :: t =>
       (c, match (unhex6 t).bind decVal with | some q => "ok " ++ showRat (rd64 q) | none => "bad-op")
   | 'G' :: ' ' :: t =>
